@@ -84,6 +84,7 @@ Definition check (c : c14case) : N :=
     let spec := map (fun s => map blank (walk_events keys_of (get_visit_fn (fst s)) (pol_of (snd s)) t)) subs in
     if negb (list_eqb events_eqb obs spec) then 2
     else if negb result_nil || negb ast_same then 2
+    else if negb (tree_ok t) then 1   (* hypothesis of C14_parallel_projection *)
     else match visit_loop keys_of par_sel par_pol (fuel_for t) t with
          | Done mevs replaced rebuilt =>
            let model := map (fun s => map blank (par_observed (get_visit_fn (fst s)) (pol_of (snd s)) mevs)) subs in
@@ -101,6 +102,7 @@ Definition check (c : c14case) : N :=
                                    | Some _ => [(e_phase e, e_id e, types_at sch attr (chain_of kind_of e))]
                                    | None => [] end) outer in
     if negb (list_eqb obs_eqb obs spec) then 2
+    else if negb (ti_ok false false t && tree_ok t) then 1   (* hypotheses of C14_typeinfo *)
     else if list_eqb obs_eqb obs (ti_run sch attr sel p ti_init outer) then 0 else 1
   | KeysCase keys shape =>
     if negb (keys_complete String.eqb exempt_names keys shape) then 2
